@@ -395,7 +395,452 @@ Section Commit.
     - destruct c; simpl; try (apply inv_crash; auto).
       + apply Hdel. auto.
       + apply Hdel. auto.
-      + apply (DInv_ext landed); auto.
+      + apply (DInv_ext landed); auto. simpl. apply nonlast_clean_all. auto.
       + apply Hdel. intros g Hg. apply negb_false_iff in Hg. apply andb_true_iff in Hg. tauto.
   Qed.
 End Commit.
+
+Section FlushCore.
+  Variables (s : spec) (m : mem) (cur nxt : N) (d1 : disk) (fs : list file) (f : file).
+  Hypothesis Hdur : sdur s = sack s.
+  Hypothesis Hpruned : mpruned m = maxprune (sack s).
+  Hypothesis Hpend : pend_rel (maxprune (sack s)) (mpend m) (spend s).
+  Hypothesis Hseq : 0 < mseq m.
+  Hypothesis Hne : mpend m <> [].
+  Hypothesis HD1 : DInv d1 (sack s).
+  Hypothesis Hf1 : dfiles d1 = fs ++ [f].
+  Hypothesis Hcur : fnum f = cur.
+  Hypothesis Hlt : forall g, In g fs -> fnum g < cur.
+  Hypothesis Hb : forall b, In b (fbat f) -> fst b < mseq m.
+  Hypothesis Hall1 : forall g, In g (dfiles d1) -> fnum g < nxt /\ ftorn g = false.
+  Hypothesis Hidx1 : forall fn h id, In (fn, REntry h id) (tagged (dfiles d1)) -> mpruned m < h -> has (midx m) h fn.
+
+  Let landed := with_files d1 (upd_file (dfiles d1) cur (add_batch (mseq m, mpend m))).
+  Let torn := with_files d1 (upd_file (dfiles d1) cur set_torn).
+
+  Lemma landed_files : dfiles landed = fs ++ [add_batch (mseq m, mpend m) f].
+  Proof. unfold landed. simpl. rewrite Hf1. apply upd_file_last; auto. Qed.
+
+  Lemma landed_tagged : tagged (dfiles landed) = tagged (dfiles d1) ++ map (fun r => (cur, r)) (mpend m).
+  Proof.
+    rewrite landed_files, Hf1, !tagged_app, !tagged_single, file_recs_add_batch by auto.
+    rewrite Hcur, app_assoc. reflexivity.
+  Qed.
+
+  Lemma clean_fs : forall g, In g fs -> ftorn g = false.
+  Proof. intros g Hg. apply Hall1. rewrite Hf1. apply in_or_app. auto. Qed.
+
+  Lemma landed_all : forall g, In g (dfiles landed) -> fnum g < nxt /\ ftorn g = false.
+  Proof.
+    intros g Hg. rewrite landed_files in Hg. apply in_app_or in Hg. destruct Hg as [Hg|[Hg|[]]].
+    - apply Hall1. rewrite Hf1. apply in_or_app. auto.
+    - subst g. simpl. apply Hall1. rewrite Hf1. apply in_or_app. simpl. auto.
+  Qed.
+
+  Lemma landed_dinv : DInv landed (sack s ++ spend s).
+  Proof.
+    apply (DInv_commit d1 landed (sack s) (mpend m) (spend s)); auto.
+    - unfold disk_recs. rewrite landed_tagged, map_app, map_snd_pair. reflexivity.
+    - apply nonlast_clean_all. intros g Hg. apply landed_all. auto.
+  Qed.
+
+  Lemma torn_dinv : DInv torn (sack s).
+  Proof. apply (DInv_torn_last d1 (sack s) fs f cur); auto. apply clean_fs. Qed.
+
+  Lemma flush_core_inv : forall o,
+    let '(d', m', r) := flush_core d1 cur nxt m o in Inv d' m' (sstep s (Flush o) r).
+  Proof.
+    intros o.
+    assert (Hcommit : let '(d', m', r) := commit_core landed cur nxt m o in Inv d' m' (sstep s (Flush o) r)).
+    { apply (commit_core_inv s m cur nxt Hpruned Hpend Hseq Hne landed fs (add_batch (mseq m, mpend m) f) (tagged (dfiles d1))).
+      - apply landed_dinv.
+      - apply landed_files.
+      - simpl. auto.
+      - auto.
+      - intros b Hin. simpl in Hin. apply in_app_or in Hin. destruct Hin as [Hin|[Hin|[]]].
+        + specialize (Hb _ Hin). lia.
+        + subst b. simpl. destruct (mpend m); [congruence|simpl; lia].
+      - apply landed_all.
+      - apply landed_tagged.
+      - auto. }
+    assert (Hwg : forall dd, DInv dd (sack s) ->
+              (forall g, In g (dfiles dd) -> fnum g < nxt /\ ftorn g = false) ->
+              (forall fn h id, In (fn, REntry h id) (tagged (dfiles dd)) -> mpruned m < h -> has (midx m) h fn) ->
+              Inv dd (mkMem false false false None nxt (mseq m) (mpruned m) (msince m) (mpend m) (midx m))
+                  (mkSpec (sack s) (sdur s) (spend s) (spend s))).
+    { intros dd Hdd Hal Hix. constructor; simpl; auto.
+      - rewrite Hdur. auto.
+      - intros _. constructor; simpl; auto. }
+    assert (Hz : forall dd dur infl, DInv dd dur -> (dur = sack s \/ dur = sack s ++ infl) ->
+              Inv dd (mkMem false false true None nxt (mseq m) (mpruned m) (msince m) (mpend m) (midx m))
+                  (mkSpec (sack s) dur infl (spend s))).
+    { intros dd dur infl Hdd Hor. constructor; simpl; auto.
+      intros [_ [_ Hx]]. simpl in Hx. discriminate. }
+    assert (Hoff : forall dd mm, DInv dd (sack s) ->
+              Inv dd (dead mm) (mkSpec (sack s) (sdur s) (spend s) (spend s))).
+    { intros dd mm Hdd. apply inv_off; simpl; auto. rewrite Hdur. auto. }
+    unfold flush_core. fold landed. fold torn.
+    destruct o as [|w rp|c].
+    - exact Hcommit.
+    - destruct w, rp; simpl.
+      + apply Hwg; auto.
+      + rewrite Hdur. apply Hz; auto.
+      + apply Hwg; auto.
+      + rewrite Hdur. apply Hz; auto. apply torn_dinv.
+      + apply Hwg; auto.
+      + apply Hz; auto. apply landed_dinv.
+    - destruct c; try exact Hcommit; simpl.
+      + apply Hoff. auto.
+      + apply Hoff. apply torn_dinv.
+  Qed.
+End FlushCore.
+
+(* ---------- Flush ---------- *)
+Lemma flush_inv : forall d m s o,
+  Inv d m s -> let '(d', m', r) := flush d m o in Inv d' m' (sstep s (Flush o) r).
+Proof.
+  intros d m s o HI. unfold flush.
+  destruct (mclosed m || mdead m) eqn:Eoff; [simpl; exact HI|].
+  apply orb_false_iff in Eoff. destruct Eoff as [Hc Hd].
+  destruct (mrepair m) eqn:Er.
+  { (* repair required: pending is non-empty, the flush is refused *)
+    destruct (i_zombie _ _ _ HI Hc Hd Er) as [Z1 Z2].
+    destruct (mpend m) eqn:Ep; [congruence|]. simpl. exact HI. }
+  assert (Ha : alive m) by (unfold alive; auto).
+  pose proof (i_alive _ _ _ HI Ha) as [A1 A2 A3 A4 A5 A6 A7].
+  pose proof (i_d _ _ _ HI) as HD. rewrite A1 in HD.
+  destruct (mpend m) as [|r0 pend] eqn:Ep.
+  - (* nothing pending *)
+    destruct A3 as [K1 K2].
+    assert (HD' : DInv d (sack s ++ spend s)).
+    { apply (DInv_commit d d (sack s) [] (spend s)); auto.
+      - split; auto.
+      - rewrite app_nil_r. reflexivity.
+      - apply HD. }
+    assert (Hmp : maxprune (sack s ++ spend s) = maxprune (sack s)).
+    { rewrite maxprune_app. unfold maxprune at 2 in K2. simpl in K2. lia. }
+    assert (Hok : Inv d m (mkSpec (sack s ++ spend s) (sack s ++ spend s) [] [])).
+    { constructor; simpl; auto.
+      - intros _. constructor; simpl; auto.
+        + rewrite Hmp. auto.
+        + rewrite Ep. apply pend_rel_nil.
+      - intros _ _ Hx. congruence. }
+    assert (Hcr : Inv d (dead m) (mkSpec (sack s) (sdur s) (spend s) (spend s))).
+    { apply inv_off; simpl; auto. rewrite A1. auto. }
+    destruct o as [|w rp|c]; simpl; auto.
+  - (* a batch is written *)
+    assert (Hne : mpend m <> []) by (rewrite Ep; discriminate).
+    cbv beta iota. unfold flush_body.
+    destruct (mcur m) as [c|] eqn:Ec.
+    + destruct A6 as [fs [f [F1 [F2 [F3 F4]]]]].
+      apply (flush_core_inv s m c (mnext m) d fs f); auto; try (rewrite Ep; exact A3).
+    + apply (flush_core_inv s m (mnext m) (mnext m + 1)
+               (with_files d (dfiles d ++ [mkFile (mnext m) [] false])) (dfiles d) (mkFile (mnext m) [] false)); auto; try (rewrite Ep; exact A3).
+      * apply (DInv_ext d); auto.
+        -- unfold disk_recs. simpl. rewrite tagged_app_empty. reflexivity.
+        -- simpl. apply nonlast_clean_snoc. intros x Hx. apply A5. auto.
+      * intros g Hg. apply A5. auto.
+      * simpl. intros b [].
+      * simpl. intros g Hg. apply in_app_or in Hg. destruct Hg as [Hg|[Hg|[]]].
+        -- destruct (A5 _ Hg). split; auto. lia.
+        -- subst g. simpl. split; auto. lia.
+      * simpl. intros fn h id Hin. rewrite tagged_app_empty in Hin. apply (A4 fn h id). auto.
+Qed.
+
+(* ---------- Close ---------- *)
+Lemma commit_core_ok : forall landed cur nxt m d' m' r,
+  commit_core landed cur nxt m FOk = (d', m', r) ->
+  r = ROk /\ mclosed m' = false /\ mdead m' = false /\ mrepair m' = false.
+Proof.
+  intros landed cur nxt m d' m' r. unfold commit_core.
+  destruct (fold_left apply_rec (map (fun r => (cur, r)) (mpend m)) (midx m, mpruned m)) as [ix p].
+  destruct ((count_prunes (mpend m) =? 0) || (msince m + count_prunes (mpend m) <? cleanup_interval));
+    simpl; intros H; inversion H; subst; simpl; auto.
+Qed.
+
+Lemma flush_ok_cases : forall d m d1 m1 r,
+  flush d m FOk = (d1, m1, r) ->
+  (r = ROk /\ mclosed m1 = false /\ mdead m1 = false /\ (mrepair m1 = true -> m1 = m)) \/
+  (r = RRefused /\ d1 = d /\ m1 = m /\ (mclosed m || mdead m = true \/ mrepair m = true)).
+Proof.
+  intros d m d1 m1 r. unfold flush.
+  destruct (mclosed m || mdead m) eqn:Eoff.
+  - intros H. inversion H; subst. right. auto.
+  - apply orb_false_iff in Eoff. destruct Eoff as [Hc Hd].
+    destruct (mpend m) eqn:Ep.
+    + intros H. inversion H; subst. left. auto.
+    + destruct (mrepair m) eqn:Er.
+      * intros H. inversion H; subst. right. auto.
+      * unfold flush_body, flush_core. destruct (mcur m); intros H; apply commit_core_ok in H;
+          destruct H as [H1 [H2 [H3 H4]]]; left; repeat split; auto; congruence.
+Qed.
+
+Lemma close_inv : forall d m s crash,
+  Inv d m s -> let '(d', m', r) := mstep d m (Close crash) in Inv d' m' (sstep s (Close crash) r).
+Proof.
+  intros d m s crash HI. simpl.
+  destruct (mdead m) eqn:Hd; [simpl; exact HI|].
+  destruct (mclosed m) eqn:Hc; [simpl; exact HI|].
+  pose proof (flush_inv d m s FOk HI) as HF.
+  destruct (flush d m FOk) as [[d1 m1] r] eqn:E.
+  change (sstep s (Flush FOk) r) with (sstep s (Close crash) r) in HF.
+  destruct crash.
+  - (* the process dies while the writer is being closed *)
+    destruct (flush_ok_cases _ _ _ _ _ E) as [[Hr [C1 [C2 C3]]]|[Hr [Hd1 [Hm1 Hwhy]]]].
+    + subst r. simpl in *. apply inv_off; simpl; auto.
+      destruct (mcur m1) as [n|] eqn:En; [|apply HF].
+      destruct (mrepair m1) eqn:Er.
+      { (* repair pending: no writer *)
+        destruct (i_zombie _ _ _ HF C1 C2 Er) as [_ Z]. congruence. }
+      assert (Ha : alive m1) by (unfold alive; auto).
+      pose proof (i_alive _ _ _ HF Ha) as [A1 A2 A3 A4 A5 A6 A7]. rewrite En in A6.
+      destruct A6 as [fs [f [F1 [F2 [F3 F4]]]]].
+      apply (DInv_torn_last d1 _ fs f n); auto. apply HF.
+      intros g Hg. apply A5. rewrite F1. apply in_or_app. auto.
+    + subst r d1 m1. simpl in *. rewrite Hd, Hc in Hwhy. simpl in Hwhy.
+      destruct Hwhy as [Hx|Hr]; [discriminate|].
+      destruct (i_zombie _ _ _ HI Hc Hd Hr) as [_ Z]. rewrite Z.
+      apply inv_off; try apply HI. auto.
+  - apply inv_off; try apply HF. auto.
+Qed.
+
+(* ---------- every step, every history ---------- *)
+Lemma step_inv : forall d m s o,
+  Inv d m s -> let '(d', m', r) := mstep d m o in Inv d' m' (sstep s o r).
+Proof.
+  intros d m s o HI. destruct o.
+  - apply step_append; auto.
+  - apply step_prune; auto.
+  - apply (flush_inv d m s o HI).
+  - apply close_inv; auto.
+  - apply step_reopen; auto.
+Qed.
+
+Definition InvS (st : state) : Prop := let '(d, m, s) := st in Inv d m s.
+
+Lemma inv_init : InvS st0.
+Proof.
+  unfold st0, InvS. constructor; simpl; auto.
+  - constructor; reflexivity.
+  - intros _. constructor; simpl; auto.
+    + apply pend_rel_nil.
+    + intros fn h id [].
+    + intros f [].
+    + lia.
+  - intros _ _ Hx. discriminate.
+Qed.
+
+Lemma run_inv : forall ops, InvS (run ops).
+Proof.
+  intros ops. unfold run.
+  assert (G : forall ops st, InvS st -> InvS (fold_left (fun st o => fst (step st o)) ops st)).
+  { induction ops0 as [|o r IH]; simpl; intros st H; auto. apply IH.
+    destruct st as [[d m] s]. unfold step. pose proof (step_inv d m s o H) as HS.
+    destruct (mstep d m o) as [[d' m'] x]. simpl. exact HS. }
+  apply G. apply inv_init.
+Qed.
+
+(* ---------- heights are positive (height 0 is the registered finding height0-dropped) ---------- *)
+Definition heights_pos (ops : list op) : Prop := forall h id, In (Append h id) ops -> 1 <= h.
+Definition pos (l : list rec) : Prop := forall h id, In (REntry h id) l -> 0 < h.
+Definition SPos (s : spec) : Prop := pos (sack s) /\ pos (sdur s) /\ pos (sinfl s) /\ pos (spend s).
+
+Lemma pos_app : forall a b, pos a -> pos b -> pos (a ++ b).
+Proof. intros a b Ha Hb h id Hin. apply in_app_or in Hin. destruct Hin; eauto. Qed.
+Lemma pos_nil : pos [].
+Proof. intros h id []. Qed.
+
+Lemma sstep_pos : forall s o r, SPos s -> (forall h id, o = Append h id -> 1 <= h) -> SPos (sstep s o r).
+Proof.
+  intros s o r [P1 [P2 [P3 P4]]] Ho. unfold SPos.
+  destruct o as [h id|h|fo|c|]; simpl.
+  - destruct (accepted r); simpl; auto. repeat split; auto. apply pos_app; auto.
+    intros h' id' [Hx|[]]. inversion Hx; subst. specialize (Ho h' id' eq_refl). lia.
+  - destruct (accepted r); simpl; auto. repeat split; auto. apply pos_app; auto.
+    intros h' id' [Hx|[]]. inversion Hx.
+  - destruct r as [| | |l|l]; simpl; auto using pos_app, pos_nil.
+    + destruct l; repeat split; auto using pos_app.
+    + destruct l; repeat split; auto using pos_app.
+  - destruct r as [| | |l|l]; simpl; auto using pos_app, pos_nil.
+    + destruct l; repeat split; auto using pos_app.
+    + destruct l; repeat split; auto using pos_app.
+  - destruct (accepted r); simpl; auto. repeat split; auto using pos_nil.
+Qed.
+
+Lemma run_snoc : forall ops o, run (ops ++ [o]) = fst (step (run ops) o).
+Proof. intros. unfold run. rewrite fold_left_app. reflexivity. Qed.
+
+Lemma run_pos : forall ops, heights_pos ops -> SPos (snd (run ops)).
+Proof.
+  intros ops. induction ops as [|o ops IH] using rev_ind; intros H.
+  - simpl. repeat split; apply pos_nil.
+  - rewrite run_snoc. assert (H1 : heights_pos ops).
+    { intros h id Hin. apply (H h id). apply in_or_app. auto. }
+    specialize (IH H1). destruct (run ops) as [[d m] s]. unfold step.
+    destruct (mstep d m o) as [[d' m'] r]. simpl in *. apply sstep_pos; auto.
+    intros h id Ho. apply (H h id). apply in_or_app. right. subst. simpl. auto.
+Qed.
+
+(* ---------- the end-to-end statement ---------- *)
+Lemma recover_main : forall ops, heights_pos ops ->
+  let '(d, m, s) := run ops in
+  reopen_obs d = Some (live (sdur s)) /\
+  (sdur s = sack s \/ sdur s = sack s ++ sinfl s) /\
+  recover_ok (sack s) (sinfl s) (reopen_obs d) = true.
+Proof.
+  intros ops Hpos. pose proof (run_inv ops) as HI. pose proof (run_pos ops Hpos) as HP.
+  destruct (run ops) as [[d m] s]. simpl in *. destruct HI as [I1 I2 _ _].
+  destruct HP as [_ [P2 _]].
+  destruct (dinv_recover d (sdur s) [] I1 P2) as [R1 _].
+  split; [exact R1|]. split; [exact I2|].
+  rewrite R1. simpl. destruct I2 as [E|E]; rewrite <- E, eq_ents_refl; simpl; auto. apply orb_true_r.
+Qed.
+
+Lemma eq_ents_true : forall a b, eq_ents a b = true -> a = b.
+Proof.
+  induction a as [|[h i] a IH]; destruct b as [|[h' i'] b]; simpl; intros H; try discriminate; auto.
+  apply andb_true_iff in H. destruct H as [H1 H2]. apply andb_true_iff in H1. destruct H1 as [Hh Hi].
+  f_equal; [f_equal; lia|auto].
+Qed.
+
+(* never a partial batch: the reopened list is one of the two complete results *)
+Lemma no_partial_batch : forall ops, heights_pos ops ->
+  let '(d, m, s) := run ops in
+  exists l, reopen_obs d = Some l /\ (l = live (sack s) \/ l = live (sack s ++ sinfl s)).
+Proof.
+  intros ops Hpos. pose proof (recover_main ops Hpos) as H.
+  destruct (run ops) as [[d m] s]. destruct H as [R1 [R2 _]].
+  exists (live (sdur s)). split; auto. destruct R2 as [E|E]; rewrite E; auto.
+Qed.
+
+(* ---------- failed flushes, for every history ---------- *)
+Lemma heights_pos_snoc : forall ops o, heights_pos ops -> (forall h id, o <> Append h id) -> heights_pos (ops ++ [o]).
+Proof.
+  intros ops o H Ho h id Hin. apply in_app_or in Hin. destruct Hin as [Hin|[Hin|[]]]; [eauto|].
+  exfalso. apply (Ho h id). auto.
+Qed.
+
+Lemma fail_repaired_alive : forall d m w d1 m1,
+  mstep d m (Flush (FFail w true)) = (d1, m1, RFail false) ->
+  alive m1 /\ mpend m1 = mpend m /\ mpend m <> [].
+Proof.
+  intros d m w d1 m1. simpl. unfold flush.
+  destruct (mclosed m || mdead m); [discriminate|].
+  destruct (mpend m) eqn:Ep; [discriminate|].
+  destruct (mrepair m); [discriminate|].
+  unfold flush_body, flush_core. destruct (mcur m); destruct w; intros H; inversion H; subst; simpl;
+    unfold alive; simpl; rewrite Ep; repeat split; auto; discriminate.
+Qed.
+
+Lemma flush_alive_ok : forall d m d1 m1 r,
+  alive m -> flush d m FOk = (d1, m1, r) -> r = ROk.
+Proof.
+  intros d m d1 m1 r [Hc [Hd Hr]] H.
+  destruct (flush_ok_cases _ _ _ _ _ H) as [[H1 _]|[_ [_ [_ Hw]]]]; auto.
+  rewrite Hc, Hd, Hr in Hw. simpl in Hw. destruct Hw; discriminate.
+Qed.
+
+Lemma flush_fail_clean_run : forall ops w, heights_pos ops ->
+  let st := run ops in
+  let '(st1, r1) := step st (Flush (FFail w true)) in
+  r1 = RFail false ->
+  sack (snd st1) = sack (snd st) /\ sdur (snd st1) = sdur (snd st) /\
+  reopen_obs (fst (fst st1)) = reopen_obs (fst (fst st)) /\
+  reopen_obs (fst (fst st)) = Some (live (sack (snd st))) /\
+  let '(st2, r2) := step st1 (Flush FOk) in
+  r2 = ROk /\ reopen_obs (fst (fst st2)) = Some (live (sack (snd st) ++ spend (snd st))).
+Proof.
+  intros ops w Hpos.
+  set (o1 := Flush (FFail w true)). set (o2 := Flush FOk).
+  assert (Hp1 : heights_pos (ops ++ [o1])) by (apply heights_pos_snoc; auto; intros; discriminate).
+  assert (Hp2 : heights_pos ((ops ++ [o1]) ++ [o2])) by (apply heights_pos_snoc; auto; intros; discriminate).
+  pose proof (recover_main ops Hpos) as M0.
+  pose proof (recover_main _ Hp1) as M1. pose proof (recover_main _ Hp2) as M2.
+  pose proof (run_inv ops) as HI0.
+  rewrite run_snoc in M2. rewrite run_snoc in M1, M2.
+  destruct (run ops) as [[d m] s] eqn:E0. cbv zeta. unfold step at 1 in M1. unfold step at 2 in M2. unfold step at 1.
+  destruct (mstep d m o1) as [[d1 m1] r1] eqn:E1. simpl fst in *. simpl snd in *.
+  intros Hr1. subst r1.
+  destruct (fail_repaired_alive _ _ _ _ _ E1) as [Ha1 [Hp Hne]].
+  (* the store was alive before: otherwise the flush would have been refused *)
+  assert (Hs1 : sstep s o1 (RFail false) = mkSpec (sack s) (sdur s) (spend s) (spend s)) by reflexivity.
+  rewrite Hs1 in *. simpl.
+  destruct M0 as [R0 [_ _]]. destruct M1 as [R1 [_ _]]. simpl in R1.
+  assert (Hdur : sdur s = sack s).
+  { assert (Ha0 : alive m).
+    { simpl in E1. unfold flush in E1. unfold alive.
+      destruct (mclosed m) eqn:C; simpl in E1; [discriminate|].
+      destruct (mdead m) eqn:D; simpl in E1; [discriminate|].
+      destruct (mpend m); [discriminate|]. destruct (mrepair m); [discriminate|auto]. }
+    apply (a_dur _ _ _ (i_alive _ _ _ HI0 Ha0)). }
+  repeat split; auto.
+  - rewrite R1, R0. reflexivity.
+  - rewrite R0, Hdur. reflexivity.
+  - unfold step in *. unfold o2 in *. simpl in M2 |- *.
+    destruct (flush d1 m1 FOk) as [[d2 m2] r2] eqn:E2.
+    assert (r2 = ROk) by (apply (flush_alive_ok d1 m1 d2 m2 r2); auto). subst r2. simpl in M2 |- *.
+    split; auto. apply M2.
+Qed.
+
+(* a failed flush whose repair failed too: every later flush is refused (nothing more is written;
+   the disk still reopens by recover_main) *)
+Lemma flush_fail_blocked : forall d m w d1 m1 l o,
+  mstep d m (Flush (FFail w false)) = (d1, m1, RFail l) ->
+  exists d2 m2, mstep d1 m1 (Flush o) = (d2, m2, RRefused) /\ d2 = d1 /\ m2 = m1.
+Proof.
+  intros d m w d1 m1 l o. simpl. unfold flush.
+  destruct (mclosed m || mdead m); [discriminate|].
+  destruct (mpend m) eqn:Ep; [discriminate|].
+  destruct (mrepair m); [discriminate|].
+  unfold flush_body, flush_core.
+  destruct (mcur m); destruct w; intros H; inversion H; subst; simpl; rewrite Ep; eauto.
+Qed.
+
+(* ---------- crash images, explicitly ---------- *)
+Inductive crash_op : op -> Prop :=
+  | co_flush : forall c, crash_op (Flush (FCrash c))   (* any moment inside Flush, incl. every cleanup sub-step *)
+  | co_close : crash_op (Close true)                   (* while the writer is being closed *)
+  | co_idle : crash_op Reopen.                         (* killed between two calls: the disk as it is *)
+
+Lemma commit_core_crash : forall landed cur nxt m c d' m' r,
+  commit_core landed cur nxt m (FCrash c) = (d', m', r) -> r = RCrash true.
+Proof.
+  intros landed cur nxt m c d' m' r. unfold commit_core.
+  destruct (fold_left apply_rec (map (fun r => (cur, r)) (mpend m)) (midx m, mpruned m)) as [ix p].
+  destruct ((count_prunes (mpend m) =? 0) || (msince m + count_prunes (mpend m) <? cleanup_interval));
+    destruct c; simpl; intros H; inversion H; reflexivity.
+Qed.
+
+Lemma crash_not_acked : forall d m o d' m' r,
+  crash_op o -> o <> Reopen -> mstep d m o = (d', m', r) -> r <> ROk.
+Proof.
+  intros d m o d' m' r Hc Hno. destruct Hc as [c| |]; [| |congruence]; simpl.
+  - unfold flush. destruct (mclosed m || mdead m); [intros H; inversion H; discriminate|].
+    destruct (mpend m); [intros H; inversion H; discriminate|].
+    destruct (mrepair m); [intros H; inversion H; discriminate|].
+    unfold flush_body, flush_core.
+    destruct (mcur m); destruct c; intros H;
+      try (apply commit_core_crash in H; subst; discriminate); inversion H; discriminate.
+  - destruct (mdead m); [intros H; inversion H; discriminate|].
+    destruct (mclosed m); [intros H; inversion H; discriminate|].
+    destruct (flush d m FOk) as [[d1 m1] r1]. intros H. inversion H. destruct r1; discriminate.
+Qed.
+
+Lemma recover_crash_images : forall ops o, heights_pos ops -> crash_op o ->
+  let s := snd (run ops) in
+  let '(d', m', s') := run (ops ++ [o]) in
+  exists l, reopen_obs d' = Some l /\
+    (l = live (sack s') \/ l = live (sack s' ++ sinfl s')) /\
+    (o <> Reopen -> sack s' = sack s).
+Proof.
+  intros ops o Hpos Hc.
+  assert (Hp1 : heights_pos (ops ++ [o])).
+  { apply heights_pos_snoc; auto. intros h id E. subst. inversion Hc. }
+  pose proof (recover_main _ Hp1) as M. rewrite run_snoc in *.
+  destruct (run ops) as [[d m] s0]. unfold step in *.
+  destruct (mstep d m o) as [[d' m'] r] eqn:E. simpl in *.
+  destruct M as [R1 [R2 _]]. exists (live (sdur (sstep s0 o r))). split; auto. split.
+  - destruct R2 as [X|X]; rewrite X; auto.
+  - intros Hno. pose proof (crash_not_acked _ _ _ _ _ _ Hc Hno E) as Hr.
+    destruct Hc; simpl; destruct r; simpl; congruence.
+Qed.
